@@ -42,7 +42,7 @@ def _count(kind: str, n: int, k: int) -> int:
 
 
 def o_comb(kind: str, seq: str, npos: int, glob: bool, none_size: bool, size: int, p0: int = 0, p1: int = 0, nt: bool = True, ct: bool = True,
-           excl=()) -> bool:
+           extra: bool = False, excl=()) -> bool:
     import crosshair
     size = crosshair.realize(size)      # itertools (C) rejects a symbolic r: realisation point, every value of the range is visited
     pos = [p0, p1][:npos]
@@ -84,11 +84,13 @@ def o_comb(kind: str, seq: str, npos: int, glob: bool, none_size: bool, size: in
         back = parse(t)
         if D.norm_empty(D.dump(back)) != D.norm_empty(_exp(w)):
             return _fail(why="wrapper result does not parse to the expected annotation", text=t)
-    if getattr(CB, kind)(a.serialize(), None if none_size else size) != texts:
-        return _fail(why="wrapper: string input gives other results than the annotation object", kind=kind)
     if D.dump(a) != before:
         return _fail(why="the expanded peptide object is no longer the peptide it was", kind=kind, diff=D.diff(D.dump(a), before))
-    # a second expansion of the same object, and one of the other kinds, still see the whole peptide
+    if not extra:
+        return True
+    # (separate, smaller conditions) string input; a second expansion of the same object, and one of another kind
+    if getattr(CB, kind)(a.serialize(), None if none_size else size) != texts:
+        return _fail(why="wrapper: string input gives other results than the annotation object", kind=kind)
     again = getattr(a, kind)(None if none_size else size)
     if [D.norm_empty(D.dump(g)) for g in again] != [D.norm_empty(D.dump(g)) for g in got]:
         return _fail(why="a second expansion of the same peptide object differs from the first", kind=kind)
